@@ -7,7 +7,8 @@
    first error ends everything, completion comes with the last running
    source's completion, notifications of terminated sources are ignored. *)
 From RxVerif Require Import Base.Prelude Ops.Machine Ops.Multi Ops.MultiFacts Ops.RunLemmas
-  Ops.Combinators Ops.MergeFacts Ops.FlatMapFacts Ops.MergeConcFacts.
+  Ops.Combinators Ops.MergeFacts Ops.FlatMapFacts Ops.MergeConcFacts Ops.MergeSpecFacts Ops.MergeOrderFacts.
+From Coq Require Import Sorting.Sorted.
 
 Theorem C11_merge_refines_spec : forall A n (ins : list (Z * inp A)),
   temitted (fst (run (x_merge n) ins))
@@ -92,4 +93,192 @@ Example C11_witness :
      [(0, ISrc 1%nat (Next 7)); (0, ISrc 0%nat (Next 3)); (0, ISrc 1%nat Done); (0, ISrc 1%nat (Next 9));
       (0, ISrc 0%nat (Next 4)); (0, ISrc 0%nat Done)]))
   = [(1%nat, Next 7); (2%nat, Next 3); (5%nat, Next 4); (6%nat, Done)].
+Proof. vm_compute. reflexivity. Qed.
+
+(* ---- the state of the three specifications ---------------------------------------------------------
+   merge_after / fm_after / mc_after give the specification's state after a prefix of the inputs (None
+   once the output has ended); they ARE the state of merge_spec / flat_map_spec / mc_spec: the
+   specification of a ++ b is that of a, followed by that of b from the state after a *)
+Theorem C11_merge_spec_splits : forall A (a b : list (Z * inp A)) running pos,
+  merge_spec running pos (a ++ b) = merge_spec running pos a ++
+    match merge_after running a with Some r' => merge_spec r' (pos + length a) b | None => [] end.
+Proof. exact @merge_spec_app. Qed.
+Print Assumptions C11_merge_spec_splits.
+Theorem C11_flat_map_spec_splits : forall A (mapper : A -> nat -> res unit) (a b : list (Z * inp A)) ol cnt running pos,
+  flat_map_spec mapper ol cnt running pos (a ++ b) = flat_map_spec mapper ol cnt running pos a ++
+    match fm_after mapper (ol, cnt, running) a with
+    | Some (ol', cnt', r') => flat_map_spec mapper ol' cnt' r' (pos + length a) b
+    | None => []
+    end.
+Proof. exact @flat_map_spec_app. Qed.
+Print Assumptions C11_flat_map_spec_splits.
+Theorem C11_mc_spec_splits : forall A (mapper : A -> nat -> res unit) mc (a b : list (Z * inp A)) ol cnt running queue pos,
+  mc_spec mapper mc ol cnt running queue pos (a ++ b) = mc_spec mapper mc ol cnt running queue pos a ++
+    match mc_after mapper mc (ol, cnt, running, queue) a with
+    | Some (ol', cnt', r', q') => mc_spec mapper mc ol' cnt' r' q' (pos + length a) b
+    | None => []
+    end.
+Proof. exact @mc_spec_app. Qed.
+Print Assumptions C11_mc_spec_splits.
+
+(* the state exists (is not None) as long as no terminal event was emitted and the subscriber did not
+   dispose *)
+Theorem C11_merge_state_exists_while_alive : forall A running pos (a : list (Z * inp A)),
+  (forall p e, In (p, e) (merge_spec running pos a) -> is_terminal e = false) ->
+  ~ In IDispose (map snd a) ->
+  exists r', merge_after running a = Some r'.
+Proof. exact @merge_after_some. Qed.
+Print Assumptions C11_merge_state_exists_while_alive.
+Theorem C11_flat_map_state_exists_while_alive : forall A (mapper : A -> nat -> res unit) ol cnt running pos (a : list (Z * inp A)),
+  (forall p e, In (p, e) (flat_map_spec mapper ol cnt running pos a) -> is_terminal e = false) ->
+  ~ In IDispose (map snd a) ->
+  exists st', fm_after mapper (ol, cnt, running) a = Some st'.
+Proof. exact @fm_after_some. Qed.
+Print Assumptions C11_flat_map_state_exists_while_alive.
+Theorem C11_mc_state_exists_while_alive : forall A (mapper : A -> nat -> res unit) mc ol cnt running queue pos (a : list (Z * inp A)),
+  (forall p e, In (p, e) (mc_spec mapper mc ol cnt running queue pos a) -> is_terminal e = false) ->
+  ~ In IDispose (map snd a) ->
+  exists st', mc_after mapper mc (ol, cnt, running, queue) a = Some st'.
+Proof. exact @mc_after_some. Qed.
+Print Assumptions C11_mc_state_exists_while_alive.
+
+(* ---- NO ELEMENT LOST: an element of a source / inner that is still running at its position (the output
+   not having ended before) IS emitted, at that position *)
+Theorem C11_merge_no_element_lost : forall A running pos (ins : list (Z * inp A)) q now k x r',
+  nth_error ins q = Some (now, ISrc k (Next x)) ->
+  merge_after running (firstn q ins) = Some r' -> In k r' ->
+  In ((pos + q)%nat, Next x) (merge_spec running pos ins).
+Proof. exact @merge_no_element_lost. Qed.
+Print Assumptions C11_merge_no_element_lost.
+Theorem C11_flat_map_no_element_lost :
+  forall A (mapper : A -> nat -> res unit) ol cnt running pos (ins : list (Z * inp A)) q now j x ol' cnt' r',
+  nth_error ins q = Some (now, ISrc (S j) (Next x)) ->
+  fm_after mapper (ol, cnt, running) (firstn q ins) = Some (ol', cnt', r') -> In (S j) r' ->
+  In ((pos + q)%nat, Next x) (flat_map_spec mapper ol cnt running pos ins).
+Proof. exact @flat_map_no_element_lost. Qed.
+Print Assumptions C11_flat_map_no_element_lost.
+Theorem C11_merge_concurrent_no_element_lost :
+  forall A (mapper : A -> nat -> res unit) mc ol cnt running queue pos (ins : list (Z * inp A)) q now j x ol' cnt' r' q',
+  nth_error ins q = Some (now, ISrc (S j) (Next x)) ->
+  mc_after mapper mc (ol, cnt, running, queue) (firstn q ins) = Some (ol', cnt', r', q') -> In (S j) r' ->
+  In ((pos + q)%nat, Next x) (mc_spec mapper mc ol cnt running queue pos ins).
+Proof. exact @mc_no_element_lost. Qed.
+Print Assumptions C11_merge_concurrent_no_element_lost.
+
+(* ... and EXACTLY those: both directions in one statement *)
+Theorem C11_merge_emits_exactly_running_elements : forall A running pos (ins : list (Z * inp A)) q x,
+  In ((pos + q)%nat, Next x) (merge_spec running pos ins) <->
+  exists now k r', nth_error ins q = Some (now, ISrc k (Next x))
+                   /\ merge_after running (firstn q ins) = Some r' /\ In k r'.
+Proof. exact @merge_spec_next_iff. Qed.
+Print Assumptions C11_merge_emits_exactly_running_elements.
+Theorem C11_flat_map_emits_exactly_running_elements :
+  forall A (mapper : A -> nat -> res unit) ol cnt running pos (ins : list (Z * inp A)) q x,
+  In ((pos + q)%nat, Next x) (flat_map_spec mapper ol cnt running pos ins) <->
+  exists now j ol' cnt' r', nth_error ins q = Some (now, ISrc (S j) (Next x))
+     /\ fm_after mapper (ol, cnt, running) (firstn q ins) = Some (ol', cnt', r') /\ In (S j) r'.
+Proof. exact @flat_map_spec_next_iff. Qed.
+Print Assumptions C11_flat_map_emits_exactly_running_elements.
+Theorem C11_merge_concurrent_emits_exactly_running_elements :
+  forall A (mapper : A -> nat -> res unit) mc ol cnt running queue pos (ins : list (Z * inp A)) q x,
+  In ((pos + q)%nat, Next x) (mc_spec mapper mc ol cnt running queue pos ins) <->
+  exists now j ol' cnt' r' q', nth_error ins q = Some (now, ISrc (S j) (Next x))
+     /\ mc_after mapper mc (ol, cnt, running, queue) (firstn q ins) = Some (ol', cnt', r', q') /\ In (S j) r'.
+Proof. exact @mc_spec_next_iff. Qed.
+Print Assumptions C11_merge_concurrent_emits_exactly_running_elements.
+
+(* merge: an error is emitted iff it is the error of a source still running at that position *)
+Theorem C11_merge_error_iff_running_source_error : forall A running pos (ins : list (Z * inp A)) q err,
+  In ((pos + q)%nat, Err err) (merge_spec running pos ins) <->
+  exists now k r', nth_error ins q = Some (now, ISrc k (Err err))
+                   /\ merge_after running (firstn q ins) = Some r' /\ In k r'.
+Proof. exact @merge_spec_error_iff. Qed.
+Print Assumptions C11_merge_error_iff_running_source_error.
+
+(* the hypotheses are satisfiable by a non-trivial state: after three inputs sources 0 and 1 still run *)
+Example C11_no_loss_hypotheses_satisfiable :
+  merge_after (A:=Z) [0%nat; 1%nat; 2%nat]
+     (firstn 3 [(0, ISrc 2%nat (Next 5)); (0, ISrc 2%nat Done); (0, ISrc 0%nat (Next 3)); (0, ISrc 1%nat (Next 7))])
+  = Some [0%nat; 1%nat]
+  /\ mc_after (A:=Z) (fun _ _ => Ok tt) 1 (true, 0%nat, [], [])
+     (firstn 3 [(0, ISrc 0%nat (Next 1)); (0, ISrc 0%nat (Next 2)); (0, ISrc 1%nat Done); (0, ISrc 2%nat (Next 20))])
+  = Some (true, 2%nat, [2%nat], []).
+Proof. vm_compute. split; reflexivity. Qed.
+
+(* ---- COMPLETION only after the outer and every inner: whatever moment q0 (not after the completion) one
+   looks at, the outer -- if still live at q0 -- and every inner running at q0 deliver their Done at an
+   input position between q0 and the completion's *)
+Theorem C11_flat_map_completes_after_outer_and_inners :
+  forall A (mapper : A -> nat -> res unit) (ins : list (Z * inp A)) ol cnt running pos p,
+  In (p, Done) (flat_map_spec mapper ol cnt running pos ins) ->
+  (pos <= p)%nat /\
+  forall q0 ol' cnt' r', (q0 <= p - pos)%nat ->
+    fm_after mapper (ol, cnt, running) (firstn q0 ins) = Some (ol', cnt', r') ->
+    (ol' = true -> exists q now, (q0 <= q <= p - pos)%nat /\ nth_error ins q = Some (now, ISrc 0%nat Done)) /\
+    (forall k, In k r' -> exists q now, (q0 <= q <= p - pos)%nat /\ nth_error ins q = Some (now, ISrc k Done)).
+Proof. exact @flat_map_completes_after_outer_and_inners. Qed.
+Print Assumptions C11_flat_map_completes_after_outer_and_inners.
+Theorem C11_mc_completes_after_outer_and_inners :
+  forall A (mapper : A -> nat -> res unit) mc (ins : list (Z * inp A)) ol cnt running queue pos p,
+  In (p, Done) (mc_spec mapper mc ol cnt running queue pos ins) ->
+  (pos <= p)%nat /\
+  forall q0 ol' cnt' r' q', (q0 <= p - pos)%nat ->
+    mc_after mapper mc (ol, cnt, running, queue) (firstn q0 ins) = Some (ol', cnt', r', q') ->
+    (ol' = true -> exists q now, (q0 <= q <= p - pos)%nat /\ nth_error ins q = Some (now, ISrc 0%nat Done)) /\
+    (forall k, In k r' -> exists q now, (q0 <= q <= p - pos)%nat /\ nth_error ins q = Some (now, ISrc k Done)).
+Proof. exact @mc_completes_after_outer_and_inners. Qed.
+Print Assumptions C11_mc_completes_after_outer_and_inners.
+
+(* ... and for max_concurrent >= 1, from a state in which inners wait only while some inner runs (e.g. the
+   initial one), the waiting queue is EMPTY at the completion, and every inner that waited at any moment
+   q0 has been started and has delivered its Done between q0 and the completion *)
+Theorem C11_mc_completes_with_empty_queue :
+  forall A (mapper : A -> nat -> res unit) mc (ins : list (Z * inp A)) ol cnt running queue pos p,
+  (0 < mc)%nat -> (queue = [] \/ running <> []) ->
+  In (p, Done) (mc_spec mapper mc ol cnt running queue pos ins) ->
+  (exists olp cntp rp, mc_after mapper mc (ol, cnt, running, queue) (firstn (p - pos) ins) = Some (olp, cntp, rp, []))
+  /\
+  forall q0 ol' cnt' r' q', (q0 <= p - pos)%nat ->
+    mc_after mapper mc (ol, cnt, running, queue) (firstn q0 ins) = Some (ol', cnt', r', q') ->
+    forall k, In k q' -> exists q now, (q0 <= q <= p - pos)%nat /\ nth_error ins q = Some (now, ISrc k Done).
+Proof. exact @mc_completes_with_empty_queue. Qed.
+Print Assumptions C11_mc_completes_with_empty_queue.
+
+(* the hypothesis 0 < max_concurrent is needed: with max_concurrent = 0 (outside the property's range 1..N)
+   every inner waits for ever and the output completes with the outer, inner 1 still in the queue *)
+Example C11_mc_zero_completes_with_waiting_inner :
+  mc_spec (A:=Z) (fun _ _ => Ok tt) 0 true 0 [] [] 1 [(0%Z, ISrc 0%nat (Next 5%Z)); (0%Z, ISrc 0%nat Done)]
+    = [(2%nat, Done)]
+  /\ mc_after (A:=Z) (fun _ _ => Ok tt) 0 (true, 0%nat, [], []) [(0%Z, ISrc 0%nat (Next 5%Z))]
+    = Some (true, 1%nat, [], [1%nat]).
+Proof. exact mc_zero_completes_with_waiting_inner. Qed.
+
+(* a completion with a queue that was non-empty on the way (max_concurrent = 1, three inners) *)
+Example C11_completion_hypotheses_satisfiable :
+  let ins := [(0, ISrc 0%nat (Next 1)); (0, ISrc 0%nat (Next 2)); (0, ISrc 0%nat (Next 3)); (0, ISrc 0%nat Done);
+              (0, ISrc 1%nat Done); (0, ISrc 2%nat (Next 20)); (0, ISrc 2%nat Done); (0, ISrc 3%nat Done)] in
+  In (8%nat, Done) (mc_spec (A:=Z) (fun _ _ => Ok tt) 1 true 0 [] [] 1 ins)
+  /\ mc_after (A:=Z) (fun _ _ => Ok tt) 1 (true, 0%nat, [], []) (firstn 3 ins) = Some (true, 3%nat, [1%nat], [2%nat; 3%nat]).
+Proof. vm_compute. split; [right; left; reflexivity|reflexivity]. Qed.
+
+(* ---- QUEUED INNERS START IN ARRIVAL ORDER: in EVERY run of merge(max_concurrent = mc) (every mapper, every
+   mc, every input sequence) the subscriptions are opened with strictly increasing ids (id 0 is the outer;
+   inner j is the one created by the j-th accepted outer element), and whatever still waits in the queue
+   is newer than everything started, itself in arrival order *)
+Theorem C11_inners_start_in_arrival_order : forall A mc (mapper : A -> nat -> res unit) (ins : list (Z * inp A)),
+  StronglySorted lt (sub_ids (map snd (fst (run (x_merge_concurrent mc mapper) ins)))).
+Proof. exact @merge_concurrent_starts_in_arrival_order. Qed.
+Print Assumptions C11_inners_start_in_arrival_order.
+Theorem C11_waiting_inners_newer_than_started : forall A mc (mapper : A -> nat -> res unit) (ins : list (Z * inp A)),
+  let m := x_merge_concurrent mc mapper in
+  let queue := snd (fst (fst (after m (fst (start_state m)) (snd (start_state m)) ins))) in
+  StronglySorted lt (sub_ids (map snd (fst (run m ins))) ++ queue).
+Proof. exact @merge_concurrent_queue_after_started. Qed.
+Print Assumptions C11_waiting_inners_newer_than_started.
+
+Example C11_witness_start_order :
+  sub_ids (map snd (fst (run (x_merge_concurrent 1 (fun _ _ => Ok tt))
+     [(0, ISrc 0%nat (Next 1)); (0, ISrc 0%nat (Next 2)); (0, ISrc 0%nat (Next 3)); (0, ISrc 1%nat Done);
+      (0, ISrc 2%nat (Next 20)); (0, ISrc 2%nat Done)])))
+  = [0%nat; 1%nat; 2%nat; 3%nat].
 Proof. vm_compute. reflexivity. Qed.
